@@ -578,6 +578,7 @@ class Limit(Parameter):
         if self.hasDatatype():
             return  # the programmer is responsible that a given datatype is correct
         postfix = self.name.rpartition('_')[-1]
+        datatype = datatype.copy()  # properties of the limit given in cfg must not change the base parameter
         if postfix == 'limits':
             self.datatype = LimitsType(datatype)
             self.default = (datatype.min, datatype.max)
